@@ -18,6 +18,9 @@ import BumpverVerif.Model.V2Version
 import BumpverVerif.Proofs.V2Lemmas
 import BumpverVerif.Proofs.Digits
 import BumpverVerif.Props.C17
+-- the functions this property's mechanism lives in are TRANSLATED from the Python source on every run (Gen/F_*.lean) and proved equal to the hand model:
+import BumpverVerif.Proofs.Tie_isCalGt
+import BumpverVerif.Proofs.Tie_verToCalInfo
 namespace BV
 
 private def S (s : String) : Str := s.toList
